@@ -939,7 +939,7 @@ func cxHistOp(c *Ctx, line string) string {
 func propC17(c *Ctx) {
 	defer cxSetDefaults()()
 	types := []string{"date", "roman", "sem", "size", "uu"}
-	nh, pcap, npairs := 4000, 1200, 700
+	nh, pcap, npairs := 4000, 2500, 1500
 	if c.Thorough {
 		nh, pcap, npairs = 60000, 9000, 6000
 	}
@@ -1471,6 +1471,8 @@ func cxCorpus(r *Rng) string {
 		return cxSeeds[r.Intn(len(cxSeeds))]
 	case p < 24:
 		return cxValidText(r, cxTypes[r.Intn(5)])
+	case p < 27:
+		return string(cxGenBinary(r))
 	case p < 30:
 		if r.Bool() {
 			return cxSizeJSON(r)
@@ -2164,11 +2166,13 @@ func cxSpecific(c *Ctx, g *cxG) {
 
 func propC18(c *Ctx) {
 	defer cxSetDefaults()()
+	// ReadMemStats stops the world; with one P that costs microseconds instead of a millisecond
+	defer runtime.GOMAXPROCS(runtime.GOMAXPROCS(1))
 	g := &cxG{c: c}
 	t0 := time.Now()
-	iters, emit := 9000, 9
+	iters, emit := 16000, 7
 	if c.Thorough {
-		iters, emit = 150000, 4
+		iters, emit = 300000, 2
 	}
 	// 1. seeded random and structured byte strings into every entry point, limits in {0, 1, default, default+1}
 	for i := 0; i < iters; i++ {
@@ -2202,7 +2206,313 @@ func propC18(c *Ctx) {
 	}
 }
 
-// PLACEHOLDER-FUZZ
-func cxNativeFuzz(c *Ctx) { c.Note("native fuzzing not implemented") }
+// cxFuzzSrc is the native fuzz harness: coverage-guided inputs into every public entry point; a panic is a
+// crash the fuzzing engine reports by itself, the limit contract and the receiver rule are checked explicitly.
+const cxFuzzSrc = `package fuzzcross
 
-var _ = []any{json.Valid, errors.Is, math.MaxInt64, os.Getenv, exec.Command, filepath.Join, runtime.GC} // TEMP-IMPORTS
+import (
+	"bytes"
+	"errors"
+	"testing"
+	"time"
+
+	"go.lstv.dev/util/date"
+	"go.lstv.dev/util/roman"
+	"go.lstv.dev/util/sem"
+	"go.lstv.dev/util/size"
+	"go.lstv.dev/util/uu"
+)
+
+var def = [5]int{date.MaxInputLength, roman.MaxInputLength, sem.MaxInputLength, size.MaxInputLength, uu.MaxInputLength}
+
+func lim(mode uint8, d int) int {
+	switch mode % 4 {
+	case 0:
+		return 0
+	case 1:
+		return 1
+	case 2:
+		return d
+	}
+	return d + 1
+}
+
+func chk(t *testing.T, name string, max, l int, err, tooLong error) {
+	if max != 0 && l > max {
+		if !errors.Is(err, tooLong) {
+			t.Fatalf("%s: length %d over limit %d: %v", name, l, max, err)
+		}
+	} else if errors.Is(err, tooLong) {
+		t.Fatalf("%s: length %d within limit %d: %v", name, l, max, err)
+	}
+}
+
+func same(t *testing.T, name string, e1, e2 error) {
+	if (e1 == nil) != (e2 == nil) || e1 != nil && e1.Error() != e2.Error() {
+		t.Fatalf("%s: string and bytes disagree: %v / %v", name, e1, e2)
+	}
+}
+
+var seeds = []string{"2024-02-29", "20240229", "MCMXCIV", "mmxxiv", "v1.2.3-rc.1+b.7", "1.0.0", "10 KiB", "{\"value\":1,\"unit\":\"KiB\"}", "\"12kB\"",
+	"ed7059f3-0000-4000-8000-000000000000", "urn:uuid:ed7059f3-0000-4000-8000-000000000000", "", "\xc3\xa9\xc3\xa9\xc3\xa9", "\xff\xfe", "\x00", "a.b-c", "1.2.3-\xc3\xa9",
+	"\x01\x00\x00\x07\xe8\x02\x1d", "{\"x\":[[[1]]],\"value\":1,\"unit\":\"B\"}", "1_000 MB"}
+
+func add(f *testing.F) {
+	for i, s := range seeds {
+		f.Add([]byte(s), []byte(seeds[(i*7+3)%len(seeds)]), i, uint8(i))
+	}
+}
+
+func FuzzDate(f *testing.F) {
+	add(f)
+	f.Fuzz(func(t *testing.T, in, in2 []byte, r int, mode uint8) {
+		date.MaxInputLength = lim(mode, def[0])
+		keep := append([]byte(nil), in...)
+		v1, e1 := date.DefaultParser(string(in), date.Rule(r))
+		v2, e2 := date.DefaultParser(in, date.Rule(r))
+		chk(t, "date", date.MaxInputLength, len(in), e1, date.ErrInputTooLong)
+		same(t, "date", e1, e2)
+		if !v1.Equal(v2) || e1 != nil && !v1.IsZero() {
+			t.Fatalf("date: values %v %v err %v", v1, v2, e1)
+		}
+		d := date.New(1999, 9, 9)
+		if err := d.UnmarshalText(in); err != nil && !d.Equal(date.New(1999, 9, 9)) || err == nil && !d.Equal(v1) {
+			t.Fatalf("date: UnmarshalText receiver %v err %v", d, err)
+		}
+		d = date.New(1999, 9, 9)
+		if err := d.UnmarshalBinary(in2); err != nil && !d.Equal(date.New(1999, 9, 9)) {
+			t.Fatalf("date: UnmarshalBinary receiver %v err %v", d, err)
+		} else if err == nil {
+			if _, m, dd := d.Date(); len(in2) != 7 || m < 1 || m > 12 || dd < 1 || dd > 31 {
+				t.Fatalf("date: UnmarshalBinary accepted %x as %v", in2, d)
+			}
+		}
+		for _, v := range []any{in, string(in), nil, r} {
+			d = date.New(1999, 9, 9)
+			if err := d.Scan(v); !errors.Is(err, date.ErrInvalidType) || !d.Equal(date.New(1999, 9, 9)) {
+				t.Fatalf("date: Scan(%T) %v %v", v, err, d)
+			}
+		}
+		if err := d.Scan(time.Unix(int64(r), int64(mode))); err != nil {
+			t.Fatalf("date: Scan(time) %v", err)
+		}
+		if !bytes.Equal(in, keep) {
+			t.Fatalf("date: input modified")
+		}
+	})
+}
+
+func FuzzRoman(f *testing.F) {
+	add(f)
+	f.Fuzz(func(t *testing.T, in, in2 []byte, r int, mode uint8) {
+		roman.MaxInputLength = lim(mode, def[1])
+		keep := append([]byte(nil), in...)
+		v1, e1 := roman.DefaultParser(string(in), roman.Rule(r))
+		v2, e2 := roman.DefaultParser(in, roman.Rule(r))
+		chk(t, "roman", roman.MaxInputLength, len(in), e1, roman.ErrInputTooLong)
+		same(t, "roman", e1, e2)
+		e3 := roman.Valid(string(in), roman.Rule(r))
+		e4 := roman.Valid(in, roman.Rule(r))
+		chk(t, "roman.Valid", roman.MaxInputLength, len(in), e3, roman.ErrInputTooLong)
+		same(t, "roman.Valid", e3, e4)
+		if (e1 == nil) != (e3 == nil) || v1 != v2 || e1 != nil && v1 != 0 {
+			t.Fatalf("roman: parse %v %v %v valid %v", v1, v2, e1, e3)
+		}
+		x := roman.Number(77)
+		if err := x.UnmarshalText(in); err != nil && x != 77 {
+			t.Fatalf("roman: receiver %d err %v", x, err)
+		}
+		if !bytes.Equal(in, keep) {
+			t.Fatalf("roman: input modified")
+		}
+	})
+}
+
+func FuzzSem(f *testing.F) {
+	add(f)
+	f.Fuzz(func(t *testing.T, in, in2 []byte, r int, mode uint8) {
+		sem.MaxInputLength = lim(mode, def[2])
+		keep, keep2 := append([]byte(nil), in...), append([]byte(nil), in2...)
+		s, s2 := string(in), string(in2)
+		v1, e1 := sem.DefaultParser(s, sem.Rule(r))
+		v2, e2 := sem.DefaultParser(in, sem.Rule(r))
+		chk(t, "sem", sem.MaxInputLength, len(in), e1, sem.ErrInputTooLong)
+		same(t, "sem", e1, e2)
+		if v1 != v2 || e1 != nil && v1 != (sem.Ver{}) {
+			t.Fatalf("sem: %v %v %v", v1, v2, e1)
+		}
+		_, e3 := sem.Parse(s)
+		_, e4 := sem.Parse(in)
+		same(t, "sem.Parse", e3, e4)
+		_, e5 := sem.ParseTag(s)
+		_, e6 := sem.ParseVersion(in)
+		for _, e := range []error{e3, e5, e6} {
+			chk(t, "sem.Parse*", sem.MaxInputLength, len(in), e, sem.ErrInputTooLong)
+		}
+		c1, e7 := sem.Compare(s, s2)
+		c2, e8 := sem.Compare(in, in2)
+		same(t, "sem.Compare", e7, e8)
+		if c1 != c2 || c1 < -1 || c1 > 1 {
+			t.Fatalf("sem.Compare: %d %d", c1, c2)
+		}
+		sem.CompareTag(in, s2)
+		sem.CompareVersion[string, string](s, s2)
+		sem.Latest(s, in2)
+		sem.LatestTag(in, in2)
+		sem.LatestVersion(s, s2)
+		if a, b := sem.DefaultComparePreRelease(s, s2), sem.DefaultComparePreRelease(in, in2); a != b || a < -1 || a > 1 {
+			t.Fatalf("sem.DefaultComparePreRelease: %d %d", a, b)
+		}
+		v := sem.Ver{Major: uint64(r), PreRelease: s, Build: s2}
+		w := sem.Ver{Major: uint64(r), PreRelease: s2, Build: s}
+		v.Compare(w)
+		v.Latest(w)
+		v.Valid()
+		x := sem.Ver{Major: 7, PreRelease: "keep"}
+		if err := x.UnmarshalText(in); err != nil && x != (sem.Ver{Major: 7, PreRelease: "keep"}) {
+			t.Fatalf("sem: receiver %v err %v", x, err)
+		}
+		if !bytes.Equal(in, keep) || !bytes.Equal(in2, keep2) {
+			t.Fatalf("sem: input modified")
+		}
+	})
+}
+
+func FuzzSize(f *testing.F) {
+	add(f)
+	f.Fuzz(func(t *testing.T, in, in2 []byte, r int, mode uint8) {
+		size.MaxInputLength = lim(mode, def[3])
+		size.MaxObjectKeys = []int{0, 1, 2, 16}[mode>>2&3]
+		keep := append([]byte(nil), in...)
+		v1, e1 := size.DefaultParser(string(in), size.Rule(r))
+		v2, e2 := size.DefaultParser(in, size.Rule(r))
+		chk(t, "size", size.MaxInputLength, len(in), e1, size.ErrInputTooLong)
+		same(t, "size", e1, e2)
+		if v1 != v2 || e1 != nil && v1 != 0 {
+			t.Fatalf("size: %d %d %v", v1, v2, e1)
+		}
+		x := size.Size(77)
+		if err := x.UnmarshalText(in); err != nil && x != 77 {
+			t.Fatalf("size: UnmarshalText receiver %d err %v", x, err)
+		}
+		x = 77
+		if err := x.UnmarshalJSON(in); err != nil && x != 77 {
+			t.Fatalf("size: UnmarshalJSON receiver %d err %v", x, err)
+		}
+		x.UnmarshalJSON(in2)
+		if !bytes.Equal(in, keep) {
+			t.Fatalf("size: input modified")
+		}
+	})
+}
+
+func FuzzUU(f *testing.F) {
+	add(f)
+	f.Fuzz(func(t *testing.T, in, in2 []byte, r int, mode uint8) {
+		uu.MaxInputLength = lim(mode, def[4])
+		keep := append([]byte(nil), in...)
+		v1, e1 := uu.DefaultParser(string(in), uu.Rule(r))
+		v2, e2 := uu.DefaultParser(in, uu.Rule(r))
+		chk(t, "uu", uu.MaxInputLength, len(in), e1, uu.ErrInputTooLong)
+		same(t, "uu", e1, e2)
+		if v1 != v2 || e1 != nil && v1 != (uu.ID{}) {
+			t.Fatalf("uu: %v %v %v", v1, v2, e1)
+		}
+		x := uu.ID{Higher: 7, Lower: 7}
+		if err := x.UnmarshalText(in); err != nil && x != (uu.ID{Higher: 7, Lower: 7}) {
+			t.Fatalf("uu: receiver %v err %v", x, err)
+		}
+		if !bytes.Equal(in, keep) {
+			t.Fatalf("uu: input modified")
+		}
+	})
+}
+`
+
+// cxNativeFuzz runs go's coverage-guided fuzzing offline in a scratch module under <verif>/work and removes
+// it afterwards. If the toolchain cannot build the scratch module the step is skipped with a note.
+func cxNativeFuzz(c *Ctx) {
+	repo := os.Getenv("VERIF_REPO")
+	if repo == "" {
+		repo = "/repo"
+	}
+	work := "/verif/work"
+	if exe, err := os.Executable(); err == nil {
+		if d := filepath.Join(filepath.Dir(filepath.Dir(exe)), "work"); strings.HasPrefix(exe, "/verif/") {
+			work = d
+		}
+	}
+	if err := os.MkdirAll(work, 0o755); err != nil {
+		c.Note("native fuzzing skipped: %v", err)
+		return
+	}
+	dir, err := os.MkdirTemp(work, "fuzz_cross_")
+	if err != nil {
+		c.Note("native fuzzing skipped: %v", err)
+		return
+	}
+	defer os.RemoveAll(dir)
+	gomod := "module fuzzcross\n\ngo 1.21\n\nrequire go.lstv.dev/util v0.0.0\n\nreplace go.lstv.dev/util => " + repo + "\n"
+	sum, _ := os.ReadFile(filepath.Join(repo, "go.sum"))
+	for name, content := range map[string][]byte{"go.mod": []byte(gomod), "go.sum": sum, "fuzz_test.go": []byte(cxFuzzSrc)} {
+		if err := os.WriteFile(filepath.Join(dir, name), content, 0o644); err != nil {
+			c.Note("native fuzzing skipped: %v", err)
+			return
+		}
+	}
+	env := append(os.Environ(), "GOFLAGS=-mod=mod", "GOPROXY=off", "GOSUMDB=off", "GOTOOLCHAIN=local", "CGO_ENABLED=0")
+	build := exec.Command("go", "test", "-c", "-fuzz=Fuzz", "-o", "fuzz.test", ".")
+	build.Dir, build.Env = dir, env
+	if out, err := build.CombinedOutput(); err != nil {
+		c.Note("native fuzzing skipped: building the fuzz binary failed: %v: %s", err, strings.TrimSpace(string(out)))
+		return
+	}
+	fuzztime := os.Getenv("VERIF_FUZZTIME")
+	if fuzztime == "" {
+		fuzztime = "20s"
+	}
+	for _, target := range []string{"FuzzDate", "FuzzRoman", "FuzzSem", "FuzzSize", "FuzzUU"} {
+		cmd := exec.Command(filepath.Join(dir, "fuzz.test"), "-test.run=^$", "-test.fuzz=^"+target+"$", "-test.fuzztime="+fuzztime, "-test.fuzzcachedir="+filepath.Join(dir, "cache"))
+		cmd.Dir, cmd.Env = dir, env
+		done := make(chan struct{})
+		var out []byte
+		var runErr error
+		t0 := time.Now()
+		go func() { out, runErr = cmd.CombinedOutput(); close(done) }()
+		select {
+		case <-done:
+		case <-time.After(5 * time.Minute):
+			cmd.Process.Kill()
+			<-done
+			c.Fail("C18.fuzz."+target, "", "fuzzing did not finish within five minutes (fuzztime %s)", fuzztime)
+			continue
+		}
+		text := string(out)
+		execs := int64(0)
+		for _, ln := range strings.Split(text, "\n") {
+			if i := strings.Index(ln, "execs: "); i >= 0 {
+				rest := ln[i+7:]
+				if j := strings.IndexByte(rest, ' '); j > 0 {
+					if n, err := strconv.ParseInt(rest[:j], 10, 64); err == nil && n > execs {
+						execs = n
+					}
+				}
+			}
+		}
+		c.Evals += execs
+		if runErr != nil || !strings.Contains(text, "PASS") {
+			crash := ""
+			if files, _ := filepath.Glob(filepath.Join(dir, "testdata", "fuzz", target, "*")); len(files) > 0 {
+				b, _ := os.ReadFile(files[0])
+				crash = string(b)
+			}
+			tail := text
+			if len(tail) > 1500 {
+				tail = tail[len(tail)-1500:]
+			}
+			c.Fail("C18.fuzz."+target, crash, "go test -fuzz reported: %v: %s", runErr, tail)
+			continue
+		}
+		c.Note("native fuzz %s: %d executions in %.0f s, no crash, no contract violation", target, execs, time.Since(t0).Seconds())
+	}
+}
